@@ -332,10 +332,30 @@ def run_case(case):
                 text = ' '.join(toks)
             elif k == 6:
                 text = good.replace('|', ' ', 1)
+            elif k == 7 and rng.random() < 0.35:
+                # a FILE whose bytes are not valid text (Latin-1 in an otherwise well-formed base): illegal input
+                import os, tempfile
+                raw = good.encode('ascii', 'ignore')
+                i = rng.randrange(len(raw))
+                raw = raw[:i] + rng.choice([b'\xac', b'\xfc', b'\xe9', b'\xff']) + raw[i:]
+                fd, fp = tempfile.mkstemp(suffix='.cl', prefix='vfc10_')
+                os.write(fd, raw)
+                os.close(fd)
+                try:
+                    check_rejected(parse_belief_base, 'parse_belief_base', fp, 'undecodable-bytes-in-file')
+                    v = res['violations']
+                    if v and v[-1]['detail'].get('text') == fp:
+                        v[-1]['detail']['text'] = repr(raw[:200])
+                finally:
+                    os.remove(fp)
+                bump('files_with_undecodable_bytes')
+                continue
             elif k == 7:
                 # malformed query list
                 ql = ','.join(fml.cond_text(B, A, 'min') for (B, A) in conds)
                 text = rng.choice([ql + '}' + ql, ql + ')', ql.replace('|', '', 1), ql + ',', '(' + ql, ql + ' x',
+                                   ql + ' } \n conditionals \n more { ' + ql,       # a second block smuggled in
+                                   ql + '\n}\nconditionals\nkb2{\n' + ql,
                                    ql.replace('),(', ')(', 1) if '),(' in ql else ql + ';'])
                 if clsyntax.is_query_list(text):
                     continue
